@@ -3,6 +3,7 @@ package c02
 import (
 	"encoding/json"
 	"fmt"
+	"regexp"
 	"sort"
 	"strings"
 	"sync"
@@ -110,6 +111,8 @@ func newFixture(spec *typeSpec) (*fixture, error) {
 }
 
 // twinDiffers compares the read snapshots of V and of its open twin ("" = same content).
+var twinStampRe = regexp.MustCompile(`\d{4}-\d\d-\d\dT\d\d:\d\d:\d\d(\.\d+)?(Z|[+-]\d\d:\d\d)`)
+
 func twinDiffers(ov, ow *obs) string {
 	for k, a := range ov.Reads {
 		if e := endpointOf(strings.SplitN(k, " ", 2)[1]); e == "mutations" || e == "lastmod" || e == "index" {
@@ -119,7 +122,9 @@ func twinDiffers(ov, ow *obs) string {
 		if a[:3] == b[:3] && a[0] != '2' {
 			continue // both refused alike (the messages quote the uuid)
 		}
-		if a != b && string(canonJSON(ov.Body[k])) != string(canonJSON(ow.Body[k])) {
+		// the two nodes were filled one after the other: server-side timestamps (neuronjson <field>_time) may fall
+		// into different seconds
+		if a != b && twinStampRe.ReplaceAllString(string(canonJSON(ov.Body[k])), "T") != twinStampRe.ReplaceAllString(string(canonJSON(ow.Body[k])), "T") {
 			return fmt.Sprintf("%s answers %s at V and %s at the twin", k, ov.Text[k], ow.Text[k])
 		}
 	}
